@@ -144,6 +144,30 @@ def trimLens {α : Type} [BEq α] (a b : List α) : Nat × Nat :=
 /-- `self.from_seq` / `self.to_seq` of `EditDistance`: the part between prefix and suffix. -/
 def middle {α : Type} (a : List α) (ps : Nat × Nat) : List α := (a.drop ps.1).take (a.length - ps.1 - ps.2)
 
+/-- `EditDistance(from, to)` on full sequences: `fromKeys`/`toKeys` decide node equality (`==`) for the trimming,
+    `rem`/`ins`/`cells` are indexed by the UNTRIMMED positions. -/
+structure Trimmed where
+  trim : Nat × Nat                       -- (len(shared_prefix), len(reversed_shared_suffix))
+  rem : List Nat                         -- of `self.from_seq`
+  ins : List Nat                         -- of `self.to_seq`
+  cells : List (List Nat)                -- the sub-matrix
+  total : Nat                            -- `C[m][n]` of the sub-matrix (the matched ends cost 0)
+  moves : List Move                      -- script of the sub-matrix
+  script : List (Move × Nat × Nat)       -- what `edits()` yields: prefix matches, sub-matrix script, suffix matches,
+                                         -- located on the untrimmed index space
+
+def solveTrimmed {α : Type} [BEq α] (fromKeys toKeys : List α) (rem ins : List Nat) (cells : List (List Nat)) :
+    Trimmed :=
+  let ps := trimLens fromKeys toKeys
+  let rem' := middle rem ps
+  let ins' := middle ins ps
+  let sub := (middle cells ps).map (middle · ps)
+  let (total, moves) := solve rem' ins' sub
+  let pre := (List.range ps.1).map fun k => (Move.diag, k, k)
+  let mid := (located moves).map fun (m, r, c) => (m, r + ps.1, c + ps.1)
+  let suf := (List.range ps.2).map fun k => (Move.diag, toKeys.length - ps.2 + k, fromKeys.length - ps.2 + k)
+  { trim := ps, rem := rem', ins := ins', cells := sub, total := total, moves := moves, script := pre ++ mid ++ suf }
+
 /-! ### String specialisation (`StringNode.edits`, `string_edit_distance`) -/
 
 /-- What happens to one character (as `StringFormatter.print_StringEdit` classifies the sub-edits). -/
@@ -246,21 +270,22 @@ def editMatrixHandler : Handler := fun j => do
   if fs.length != fk.length || ts.length != tk.length || cells.length != tk.length
       || cells.any (·.length != fk.length) then
     throw "shape"
-  let ps := trimLens fk tk
-  let rem := (middle fs ps).map (· + pen)
-  let ins := (middle ts ps).map (· + pen)
-  let sub := (middle cells ps).map (middle · ps)
-  let tbl := rows rem ins sub
-  let (total, moves) := solve rem ins sub
-  let pre := (List.range ps.1).map fun k => (Move.diag, k, k)
-  let mid := (located moves).map fun (m, r, c) => (m, r + ps.1, c + ps.1)
-  let suf := (List.range ps.2).map fun k => (Move.diag, tk.length - ps.2 + k, fk.length - ps.2 + k)
+  let rem := fs.map (· + pen)
+  let ins := ts.map (· + pen)
+  let t := solveTrimmed fk tk rem ins cells
+  let ps := t.trim
+  let sub := t.cells
+  let tbl := rows t.rem t.ins sub
+  let total := t.total
+  let rem := t.rem
+  let ins := t.ins
+  let moves := t.moves
   let empty := rem.isEmpty && ins.isEmpty
   let ib := initialBounds fs ts pen
   let bounds : Nat × Nat := if empty then ib else (total, total)
   pure <| Json.mkObj [
     ("prefix", Json.num (ps.1 : Nat)), ("suffix", Json.num (ps.2 : Nat)),
-    ("script", locatedToJson (pre ++ mid ++ suf)),
+    ("script", locatedToJson t.script),
     ("move_costs", natListToJson (List.replicate ps.1 0 ++ moveCosts rem ins sub moves ++ List.replicate ps.2 0)),
     ("bounds", natListToJson [bounds.1, bounds.2]),
     ("initial_bounds", natListToJson [ib.1, ib.2]),
